@@ -22,7 +22,7 @@ N_D = ("Trusted: TLC, the JSON projection in harness/model.py (a change of repre
        "Python's exception mechanism. Exhaustive only within the stated family bounds; larger instances are "
        "covered by monitored random executions.")
 
-claim("C01", "model_checking", "Inv_Feasible/Inv_CompleteAfterN hold in every reachable state of the spec over all instances of the bounded family x filter compositions; every recorded dispatch of the real Dispatcher is the specification's step and the logged schedule is feasible. Thorough tier adds an inductive invariant proved with Apalache for symbolic durations and machine sets (3x3x3).", N_D, T_D, "5/C01")
+claim("C01", "model_checking", "Inv_Feasible/Inv_CompleteAfterN hold in every reachable state of the spec over all instances of the bounded family x filter compositions; every recorded dispatch of the real Dispatcher is the specification's step and the logged schedule is feasible. A TLAPS proof (264 obligations) establishes the feasibility/bookkeeping invariant of the dispatch step for arbitrary finite instances; the thorough tier adds an Apalache inductive-invariant run (3x3x3, symbolic durations).", N_D, T_D, "5/C01")
 claim("C02", "model_checking", "Tracking vectors = derive(schedule), forced (semi-active) starts and makespan checked by TLC on the spec and on every logged state; recorded histories replayed on fresh and reset dispatchers. Thorough tier adds the Apalache inductive invariant (bookkeeping clauses) for symbolic durations.", N_D, T_D, "5/C02")
 claim("C05", "model_checking", "Memoisation cache modelled as a state variable; TLC explores every query order; every real query result in every visited state is compared with the definitional operator.", N_D, T_D, "5/C05")
 claim("C06", "model_checking", "One-step-ahead invariants (now' >= now, completed grows, end = makespan, filters keep now) on the spec; same predicates on consecutive logged states and on current_time()/completed_operations() read-outs.", N_D, T_D, "5/C06")
@@ -79,6 +79,11 @@ def build(registered):
             "path": "/verif/spec",
             "serves_properties": [c["property_id"] for c in checks],
             "kind_free_text": "explicit TLA+ specification (spec/*.tla) model-checked with TLC; behaviours generated by TLC (Gen_*.tla) are replayed into the real library and recorded executions are validated by TLA+ monitors (Trace_*.tla, Monitor*.tla) evaluated by TLC",
+        }, {
+            "name": "tlaps-proof",
+            "path": "/verif/spec/tlaps",
+            "serves_properties": ["C01", "C02"],
+            "kind_free_text": "machine-checked TLAPS proof of Spec => []IndInv (feasibility + bookkeeping) for arbitrary finite job/machine sets, lengths, durations and machine sets",
         }, {
             "name": "apalache-inductive",
             "path": "/verif/spec/apalache",
